@@ -247,7 +247,12 @@ example :
 
 end BodyPart
 
-/-! ## Part 3 — parameter defaults -/
+/-! ## Part 3 — parameter defaults
+
+The model follows the repaired code (defaults only for parameters that were not found; arrays comma-separated in
+headers and cookies; the query cache refreshed with the URL).  Findings F-C13-3 … F-C13-6 of the first round are
+repaired: their exclusion classes are gone, the theorems below are at full strength, and the old witness inputs are
+kept as regression theorems.  One class remains (`DefaultReadsAsEmpty`, F-C13-7), and only for "validates again". -/
 section ParamPart
 open Params
 
@@ -256,297 +261,285 @@ theorem param_skip_identity (multi : Bool) : ∀ (ps : List Param) (st : Store),
   | [], st => rfl
   | p :: ps, st => by
     have h1 : (paramStep true p st).1 = st := by
-      unfold paramStep stepWith
-      cases decode p (st.get p.key) <;> simp
-    unfold paramsPhase
-    simp only
+      unfold paramStep; rw [stepWith_fst]
+      cases h : applied true p (st.get p.key) with
+      | none => rfl
+      | some d => have := (applied_some_absent true p _ d h).2.1; cases this
+    rw [paramsPhase_cons]
     split
     · exact h1
     · simp only; rw [h1]; exact param_skip_identity multi ps st
 
-/-- A parameter that is present and decodes to a value leaves the request alone. -/
-theorem param_present_unchanged (skip : Bool) (p : Param) (st : Store) (h : decode p (st.get p.key) = .val) :
-    paramStep skip p st = (st, true) := by
-  unfold paramStep stepWith; simp [h]
+/-- A parameter that is present — with a value, with an empty value, or with a schema that never yields a value —
+leaves the request alone.  (Full strength; F-C13-3 and F-C13-4 are repaired.) -/
+theorem param_present_unchanged (skip : Bool) (p : Param) (st : Store) (hp : p.loc ≠ .path)
+    (h : (st.get p.key).isSome = true) : (paramStep skip p st).1 = st := by
+  unfold paramStep; rw [stepWith_fst]
+  cases ha : applied skip p (st.get p.key) with
+  | none => rfl
+  | some d =>
+    have := decode_nil_false_absent p _ hp (applied_some_absent skip p _ d ha).1
+    rw [this] at h; cases h
 
 /-- A parameter only ever touches its own key. -/
 theorem param_other_keys_untouched (skip : Bool) (p : Param) (st : Store) (k : Key) (hk : k ≠ p.key) :
-    (paramStep skip p st).1.get k = st.get k := by
-  unfold paramStep stepWith
-  cases decode p (st.get p.key) with
-  | err => rfl
-  | val => rfl
-  | nil found =>
-    simp only
-    cases hd : (if skip = true then none else p.dflt) with
-    | none => rfl
-    | some d =>
-      simp only [writeDefault]
-      cases he : encodeDefault p d with
-      | nil => rfl
-      | cons w r => exact get_add_other st p.key k (w :: r) hk
+    (paramStep skip p st).1.get k = st.get k := paramStep_other skip p st k hk
 
-/-- **defaults appear with that default and nothing else changes (model = spec, partial).**  For an accepted
-parameter outside the three classes below the request afterwards is the spec's: unchanged if the parameter is present
-or has no default, else its key holds the default in the serialisation the parameter's own decoder reads. -/
-theorem param_step_eq_spec_partial (skip : Bool) (p : Param) (st : Store)
-    (h1 : EmptyPresent skip p st = false) (h2 : UntypedDefault skip p = false) (h3 : SprintArrayDefault skip p st = false)
+/-- **defaults appear with that default and nothing else changes (model = spec).**  For an accepted parameter the
+request afterwards is the spec's: unchanged if the parameter is present or has no default, else its key holds the
+default in the serialisation the parameter's own decoder reads.  Full strength: no exclusion class. -/
+theorem param_step_eq_spec (skip : Bool) (p : Param) (st : Store)
     (hok : (paramStep skip p st).2 = true) : (paramStep skip p st).1 = specStep skip p st := by
-  unfold paramStep stepWith at hok ⊢
+  unfold paramStep at hok ⊢
+  rw [stepWith_fst]
   unfold specStep
-  cases hs : skip with
-  | true => cases decode p (st.get p.key) <;> simp
-  | false =>
-    subst hs
-    cases hd : decode p (st.get p.key) with
-    | err => simp [hd] at hok
-    | val =>
-      have := decode_val_present p _ hd
-      cases hg : st.get p.key with
-      | none => simp [hg] at this
-      | some ws => simp
-    | nil found =>
+  cases ha : applied skip p (st.get p.key) with
+  | some d =>
+    obtain ⟨h1, h2, h3⟩ := applied_some_absent skip p _ d ha
+    subst h2
+    simp only [Bool.false_eq_true, ↓reduceIte, h3]
+    by_cases hpath : p.loc = .path
+    · have e2 : specEncode p d = [] := by rw [← encodeDefault_eq_spec]; exact encodeDefault_path p d hpath
+      simp only [writeDefault, encodeDefault_path p d hpath]
+      cases st.get p.key <;> simp [e2]
+    · rw [decode_nil_false_absent p _ hpath h1]
+      simp only [writeDefault, encodeDefault_eq_spec]
+  | none =>
+    simp only
+    cases hs : skip with
+    | true => rfl
+    | false =>
       simp only [Bool.false_eq_true, ↓reduceIte]
-      cases hdf : p.dflt with
-      | none => cases st.get p.key <;> simp
-      | some d =>
-        simp only
-        by_cases hpath : p.loc = .path
-        · have e1 : encodeDefault p d = [] := by unfold encodeDefault; simp [hpath]
-          have e2 : specEncode p d = [] := by unfold specEncode; simp [hpath]
-          simp only [writeDefault, e1]
-          cases st.get p.key <;> simp [e2]
-        · have hty : p.ty ≠ .untyped := by
-            intro e; simp [UntypedDefault, hdf, e, hpath] at h2
-          have hf : found = false := by
-            cases found with
-            | false => rfl
-            | true => simp [EmptyPresent, hdf, hpath, hty, hd] at h1
-          subst hf
-          have hg := decode_nil_false_absent p _ hty hpath hd
-          simp only [hg, writeDefault]
-          have he : encodeDefault p d = specEncode p d := by
-            unfold encodeDefault specEncode
-            cases hl : p.loc <;> cases d <;> simp
-            all_goals simp [SprintArrayDefault, hl, hdf, hd] at h3
-          rw [he]
-
-/-- **defaults_idempotent (one parameter, partial).**  Outside the classes, what a parameter's validation leaves
-behind is a fixed point: validating again writes nothing. -/
-theorem param_idempotent_partial (skip : Bool) (p : Param) (st : Store)
-    (h1 : EmptyPresent skip p st = false) (h2 : UntypedDefault skip p = false) :
-    (paramStep skip p (paramStep skip p st).1).1 = (paramStep skip p st).1 := by
-  cases hs : skip with
-  | true =>
-    have : ∀ st', (paramStep true p st').1 = st' := by
-      intro st'; unfold paramStep stepWith; cases decode p (st'.get p.key) <;> simp
-    rw [this, this]
-  | false =>
-    subst hs
-    cases hd : decode p (st.get p.key) with
-    | err => have e : paramStep false p st = (st, false) := by unfold paramStep stepWith; simp [hd]
-             rw [e]; simp only; rw [e]
-    | val => have e : paramStep false p st = (st, true) := by unfold paramStep stepWith; simp [hd]
-             rw [e]; simp only; rw [e]
-    | nil found =>
-      cases hdf : p.dflt with
+      cases hg : st.get p.key with
+      | some ws => rfl
       | none =>
-        have e : (paramStep false p st).1 = st := by unfold paramStep stepWith; simp [hd, hdf]
-        rw [e, e]
-      | some d =>
-        have e : (paramStep false p st).1 = writeDefault p d st := by unfold paramStep stepWith; simp [hd, hdf]
-        rw [e]
-        by_cases hnil : encodeDefault p d = []
-        · have : writeDefault p d st = st := by simp [writeDefault, hnil]
-          rw [this, e, this]
-        · have hpath : p.loc ≠ .path := by intro hp; apply hnil; unfold encodeDefault; simp [hp]
-          have hty : p.ty ≠ .untyped := by intro e; simp [UntypedDefault, hdf, e, hpath] at h2
-          have hf : found = false := by
+        cases hdf : p.dflt with
+        | none => rfl
+        | some d =>
+          -- absent, with a default, yet the block did not run: the decoder failed — then the parameter was rejected
+          exfalso
+          subst hs
+          unfold applied at ha
+          unfold stepWith at hok
+          rw [hg] at ha hok
+          cases hd : decode p none with
+          | err => simp [hd] at hok
+          | val => have := decode_val_present p none hd; cases this
+          | nil found =>
             cases found with
-            | false => rfl
-            | true => simp [EmptyPresent, hdf, hpath, hty, hd] at h1
-          subst hf
-          have hg := decode_nil_false_absent p _ hty hpath hd
-          have hne : encodeDefault p d ≠ [.empty] := by
-            intro he; simp [EmptyPresent, hdf, hpath, hty, hd, he] at h1
-          have hw : (writeDefault p d st).get p.key = some (encodeDefault p d) := by
-            unfold writeDefault
-            cases he : encodeDefault p d with
-            | nil => exact absurd he hnil
-            | cons w r => simp [get_add_same, hg]
-          unfold paramStep stepWith
-          rw [hw]
-          rcases decode_written p d hty hnil hne with h | h <;> simp [h]
+            | true => have := decode_nil_true_present p none hd; cases this
+            | false => simp [hd, hdf] at ha
 
-/-- **defaulted_request_validates (one parameter, partial).**  Outside the classes, a parameter that was accepted
-(with its default written or not) is accepted again by the next validation. -/
+/-- **defaults_idempotent (one parameter).**  What a parameter's validation leaves behind is a fixed point: validating
+again writes nothing.  Full strength, whatever the verdicts. -/
+theorem param_idempotent (skip : Bool) (p : Param) (st : Store) :
+    (paramStep skip p (paramStep skip p st).1).1 = (paramStep skip p st).1 := by
+  have e : (paramStep skip p st).1 = _ := stepWith_fst skip p (st.get p.key) st
+  cases ha : applied skip p (st.get p.key) with
+  | none =>
+    rw [ha] at e; simp only at e
+    rw [e, e]
+  | some d =>
+    rw [ha] at e; simp only at e
+    rw [e]
+    by_cases hnil : encodeDefault p d = []
+    · have : writeDefault p d st = st := by simp [writeDefault, hnil]
+      rw [this, e, this]
+    · have hpath : p.loc ≠ .path := fun hp => hnil (encodeDefault_path p d hp)
+      have hg := decode_nil_false_absent p _ hpath (applied_some_absent skip p _ d ha).1
+      unfold paramStep
+      rw [stepWith_fst, writeDefault_get p d st hnil hg, applied_after_write skip p _ hpath]
+
+/-- **defaulted_request_validates (one parameter, partial).**  Full statement: an accepted parameter is accepted again
+by the next validation.  It fails where the written default reads back as "no value" (`DefaultReadsAsEmpty`, witness
+below); outside that class it holds. -/
 theorem param_default_validates_partial (skip : Bool) (p : Param) (st : Store)
-    (h1 : EmptyPresent skip p st = false) (h2 : UntypedDefault skip p = false) (h3 : SprintArrayDefault skip p st = false)
+    (hx : DefaultReadsAsEmpty skip p st = false)
     (hok : (paramStep skip p st).2 = true) : (paramStep skip p (paramStep skip p st).1).2 = true := by
-  cases hd : decode p (st.get p.key) with
-  | err => unfold paramStep stepWith at hok; simp [hd] at hok
-  | val => have e : paramStep skip p st = (st, true) := by unfold paramStep stepWith; simp [hd]
-           rw [e]; simp only; rw [e]
-  | nil found =>
-    cases hdf : (if skip = true then none else p.dflt) with
-    | none =>
-      have e : (paramStep skip p st).1 = st := by unfold paramStep stepWith; simp [hd, hdf]
-      rw [e]; exact hok
-    | some d =>
-      have hs : skip = false := by cases skip <;> simp_all
-      subst hs
-      simp only [Bool.false_eq_true, ↓reduceIte] at hdf
-      have e : paramStep false p st = (writeDefault p d st, !(p.required && !found) && dfltValid p.ty d) := by
-        unfold paramStep stepWith; simp [hd, hdf]
-      rw [e] at hok ⊢
-      simp only [Bool.and_eq_true] at hok
-      by_cases hnil : encodeDefault p d = []
-      · have : writeDefault p d st = st := by simp [writeDefault, hnil]
-        simp only [this]; rw [e]; simp [hok.1, hok.2]
-      · have hpath : p.loc ≠ .path := by intro hp; apply hnil; unfold encodeDefault; simp [hp]
-        have hty : p.ty ≠ .untyped := by intro e; simp [UntypedDefault, hdf, e, hpath] at h2
-        have hf : found = false := by
-          cases found with
-          | false => rfl
-          | true => simp [EmptyPresent, hdf, hpath, hty, hd] at h1
-        subst hf
-        have hg := decode_nil_false_absent p _ hty hpath hd
-        have hne : encodeDefault p d ≠ [.empty] := by
-          intro he; simp [EmptyPresent, hdf, hpath, hty, hd, he] at h1
-        have hw : (writeDefault p d st).get p.key = some (encodeDefault p d) := by
-          unfold writeDefault
-          cases he : encodeDefault p d with
-          | nil => exact absurd he hnil
-          | cons w r => simp [get_add_same, hg]
-        have hsp : ¬ ((p.loc = .header ∨ p.loc = .cookie) ∧ ∃ as, d = .list as) := by
-          rintro ⟨hl, as, rfl⟩
-          rcases hl with hl | hl <;> simp [SprintArrayDefault, hl, hdf, hd] at h3
-        have hck : ¬ (p.loc = .cookie ∧ p.explode = true ∧ ∃ t, p.ty = .array t) := by
-          rintro ⟨hl, hx, t, ht⟩
-          unfold decode at hd
-          simp [ht, hl, hx] at hd
-        have := decode_written_valid p d hok.2 hty hsp hck hnil hne
-        simp only
-        unfold paramStep stepWith
-        rw [hw, this]
+  have e : (paramStep skip p st).1 = _ := stepWith_fst skip p (st.get p.key) st
+  cases ha : applied skip p (st.get p.key) with
+  | none => rw [ha] at e; simp only at e; rw [e]; exact hok
+  | some d =>
+    rw [ha] at e; simp only at e
+    obtain ⟨h1, h2, h3⟩ := applied_some_absent skip p _ d ha
+    subst h2
+    by_cases hnil : encodeDefault p d = []
+    · have : writeDefault p d st = st := by simp [writeDefault, hnil]
+      rw [e, this]; exact hok
+    · have hpath : p.loc ≠ .path := fun hp => hnil (encodeDefault_path p d hp)
+      have hg := decode_nil_false_absent p _ hpath h1
+      rw [hg] at h1
+      -- first verdict: not required, default valid
+      have hok' : (!(p.required && !false) && dfltValid p.ty d) = true := by
+        unfold paramStep stepWith at hok
+        rw [hg] at hok
+        simpa [h1, h3] using hok
+      simp only [Bool.not_false, Bool.and_true, Bool.and_eq_true, Bool.not_eq_true'] at hok'
+      rw [e]
+      unfold paramStep stepWith
+      rw [writeDefault_get p d st hnil hg]
+      have hallow : (p.ty = .untyped ∨ encodeDefault p d = [.empty]) → p.allowEmpty = true := by
+        intro hcase
+        cases hal : p.allowEmpty with
+        | true => rfl
+        | false =>
+          exfalso
+          have : DefaultReadsAsEmpty false p st = true := by
+            unfold DefaultReadsAsEmpty
+            rw [hg, h1, h3]
+            rcases hcase with hc | hc <;> simp [hal, hnil, hc]
+          rw [this] at hx; cases hx
+      by_cases hty : p.ty = .untyped
+      · -- a schema without type: found, no value; accepted only with allowEmptyValue
+        have hd : decode p (some (encodeDefault p d)) = .nil true := by unfold decode; simp [hty]
+        simp [hd, hallow (Or.inl hty), hok'.1]
+      · by_cases hem : encodeDefault p d = [.empty]
+        · have hd := decode_empty p hpath hty h1
+          rw [hem, hd]
+          simp [hallow (Or.inr hem), hok'.1]
+        · rw [decode_written_valid p d hok'.2 hty h1 hnil hem]
 
-/-- **Second validation of all parameters (partial).**  For parameters with pairwise distinct (location, name), none of
-them in one of the classes, a request whose parameters were accepted is accepted again and the second validation
-changes nothing further — whatever the mix of present and defaulted parameters, fail-first or multi-error. -/
+/-- **Every parameter step on an already validated request is a no-op ⇒ so is the whole phase.** -/
+theorem params_fixed_of_steps (skip multi : Bool) : ∀ (ps : List Param) (st : Store),
+    (∀ p ∈ ps, (paramStep skip p st).1 = st) → (paramsPhase skip multi ps st).1 = st
+  | [], _, _ => rfl
+  | p :: ps, st, h => by
+    rw [paramsPhase_cons]
+    split
+    · exact h p (by simp)
+    · simp only; rw [h p (by simp)]; exact params_fixed_of_steps skip multi ps st (fun q hq => h q (by simp [hq]))
+
+/-- **defaults_idempotent (all parameters).**  For parameters with pairwise distinct (location, name): after an
+accepted validation a second validation changes no parameter — whatever its verdict.  Full strength. -/
+theorem params_idempotent (skip multi : Bool) : ∀ (ps : List Param) (st : Store),
+    keysDistinct ps = true → (paramsPhase skip multi ps st).2 = true →
+    (paramsPhase skip multi ps (paramsPhase skip multi ps st).1).1 = (paramsPhase skip multi ps st).1 := by
+  intro ps st hk hok
+  apply params_fixed_of_steps
+  -- each parameter finds its own key as its own validation left it
+  suffices h : ∀ (ps : List Param) (st : Store), keysDistinct ps = true → (paramsPhase skip multi ps st).2 = true →
+      ∀ p ∈ ps, (paramStep skip p (paramsPhase skip multi ps st).1).1 = (paramsPhase skip multi ps st).1 from h ps st hk hok
+  intro ps
+  induction ps with
+  | nil => intro _ _ _ p hp; cases hp
+  | cons q qs ih =>
+    intro st hk hok p hp
+    simp only [keysDistinct, Bool.and_eq_true, List.all_eq_true, bne_iff_ne, ne_eq] at hk
+    obtain ⟨_, ok2, e⟩ := paramsPhase_ok_cons skip multi q qs st hok
+    rw [e]
+    cases hp with
+    | tail _ hm => exact ih _ hk.2 ok2 p hm
+    | head =>
+      have hget : (paramStep skip q st).1.get q.key = (paramsPhase skip multi qs (paramStep skip q st).1).1.get q.key :=
+        (paramsPhase_other skip multi q.key qs _ (fun r hr => fun h => hk.1 r hr h.symm)).symm
+      exact (paramStep_congr skip q _ _ hget).2 (param_idempotent skip q st)
+
+/-- **Second validation of all parameters (partial).**  With distinct keys and no parameter in `DefaultReadsAsEmpty`,
+an accepted request is accepted again and nothing changes. -/
 theorem params_second_validation_partial (skip multi : Bool) : ∀ (ps : List Param) (st : Store),
-    keysDistinct ps = true → (∀ p ∈ ps, Regular skip p st = true) → (paramsPhase skip multi ps st).2 = true →
+    keysDistinct ps = true → (∀ p ∈ ps, DefaultReadsAsEmpty skip p st = false) → (paramsPhase skip multi ps st).2 = true →
     paramsPhase skip multi ps (paramsPhase skip multi ps st).1 = ((paramsPhase skip multi ps st).1, true)
   | [], st, _, _, _ => rfl
   | p :: ps, st, hk, hr, hok => by
     simp only [keysDistinct, Bool.and_eq_true, List.all_eq_true, bne_iff_ne, ne_eq] at hk
     obtain ⟨ok1, ok2, e⟩ := paramsPhase_ok_cons skip multi p ps st hok
-    have hp := hr p (by simp)
-    simp only [Regular, Bool.and_eq_true, Bool.not_eq_true'] at hp
-    -- the later parameters see their own keys as they were
-    have hr' : ∀ q ∈ ps, Regular skip q (paramStep skip p st).1 = true := by
+    have hr' : ∀ q ∈ ps, DefaultReadsAsEmpty skip q (paramStep skip p st).1 = false := by
       intro q hq
-      rw [regular_congr skip q st _ (paramStep_other skip p st q.key (hk.1 q hq)).symm]
+      rw [defaultReadsAsEmpty_congr skip q st _ (paramStep_other skip p st q.key (hk.1 q hq)).symm]
       exact hr q (by simp [hq])
     have ih := params_second_validation_partial skip multi ps (paramStep skip p st).1 hk.2 hr' ok2
     rw [e]
-    -- the first parameter sees its own key as its own validation left it
     have hget : (paramStep skip p st).1.get p.key =
         (paramsPhase skip multi ps (paramStep skip p st).1).1.get p.key :=
       (paramsPhase_other skip multi p.key ps _ (fun q hq => fun h => hk.1 q hq h.symm)).symm
     obtain ⟨c1, c2⟩ := paramStep_congr skip p _ _ hget
-    have s1 := param_idempotent_partial skip p st hp.1.1 hp.1.2
-    have s2 := param_default_validates_partial skip p st hp.1.1 hp.1.2 hp.2 ok1
-    have t1 := c2 s1
-    have t2 := c1.trans s2
+    have t1 := c2 (param_idempotent skip p st)
+    have t2 := c1.trans (param_default_validates_partial skip p st (hr p (by simp)) ok1)
     generalize (paramsPhase skip multi ps (paramStep skip p st).1).1 = stf at *
     rw [paramsPhase_cons]
     simp only [t1, t2, Bool.not_true, Bool.false_and, Bool.false_eq_true, ↓reduceIte, ih, Bool.and_self]
 
-/-- **All parameters: forwarded request = spec (partial).**  Under the same hypotheses the parameters of the accepted
-request are exactly the spec's: every absent parameter with a default carries it, nothing else changed. -/
-theorem params_eq_spec_partial (skip multi : Bool) : ∀ (ps : List Param) (st : Store),
-    keysDistinct ps = true → (∀ p ∈ ps, Regular skip p st = true) → (paramsPhase skip multi ps st).2 = true →
-    (paramsPhase skip multi ps st).1 = specParams skip ps st
-  | [], st, _, _, _ => rfl
-  | p :: ps, st, hk, hr, hok => by
-    simp only [keysDistinct, Bool.and_eq_true, List.all_eq_true, bne_iff_ne, ne_eq] at hk
+/-- **All parameters: forwarded request = spec.**  The parameters of an accepted request are exactly the spec's: every absent parameter with a default carries it, nothing else changed.
+Full strength. -/
+theorem params_eq_spec (skip multi : Bool) : ∀ (ps : List Param) (st : Store),
+    (paramsPhase skip multi ps st).2 = true → (paramsPhase skip multi ps st).1 = specParams skip ps st
+  | [], st, _ => rfl
+  | p :: ps, st, hok => by
     obtain ⟨ok1, ok2, e⟩ := paramsPhase_ok_cons skip multi p ps st hok
-    have hp := hr p (by simp)
-    simp only [Regular, Bool.and_eq_true, Bool.not_eq_true'] at hp
-    have hr' : ∀ q ∈ ps, Regular skip q (paramStep skip p st).1 = true := by
-      intro q hq
-      rw [regular_congr skip q st _ (paramStep_other skip p st q.key (hk.1 q hq)).symm]
-      exact hr q (by simp [hq])
-    rw [e, params_eq_spec_partial skip multi ps _ hk.2 hr' ok2,
-      param_step_eq_spec_partial skip p st hp.1.1 hp.1.2 hp.2 ok1]
+    rw [e, params_eq_spec skip multi ps _ ok2, param_step_eq_spec skip p st ok1]
     rfl
 
-/-- non-vacuity of the two list theorems: a defaulted query parameter, a present header, a defaulted cookie -/
+/-- **The query cache is harmless.**  ValidateRequest decodes query parameters from `input.QueryParams` and writes
+defaults into the URL and (repaired code) into that cache.  If the cache agrees with the URL on entry — a fresh
+input, or the input of an earlier validation — the code's `paramsPhaseCached` is `paramsPhase`, and the cache agrees
+with the URL afterwards: a REUSED input behaves like a fresh one (F-C13-6 repaired; full strength). -/
+theorem query_cache_harmless (skip multi : Bool) (ps : List Param) (view st : Store) (h : InSync view st) :
+    (paramsPhaseCached skip multi view ps st).2.1 = (paramsPhase skip multi ps st).1 ∧
+    (paramsPhaseCached skip multi view ps st).2.2 = (paramsPhase skip multi ps st).2 ∧
+    InSync (paramsPhaseCached skip multi view ps st).1 (paramsPhase skip multi ps st).1 :=
+  paramsPhaseCached_sync skip multi ps view st h
+
+/-- F-C13-7 (open): a schema without `type` and default 7, parameter absent: `u=7` is written and the request accepted;
+    the next validation finds `u` without a value and rejects it ("empty value is not allowed"); nothing is written
+    again.  Same for an empty array default joined by ",". -/
+theorem witness_default_reads_as_empty :
+    let p : Param := { name := "u", loc := .query, ty := .untyped, dflt := some (.sc (.int 7)), required := false, allowEmpty := false, explode := true }
+    DefaultReadsAsEmpty false p [] = true ∧
+    paramStep false p [] = ([((.query, "u"), [.lit (.int 7)])], true) ∧
+    paramStep false p (paramStep false p []).1 = ([((.query, "u"), [.lit (.int 7)])], false) := by decide
+
+theorem witness_empty_array_default_reads_as_empty :
+    let e : Param := { name := "e", loc := .query, ty := .array .integer, dflt := some (.list []), required := false, allowEmpty := false, explode := false }
+    DefaultReadsAsEmpty false e [] = true ∧
+    paramStep false e [] = ([((.query, "e"), [.empty])], true) ∧
+    paramStep false e (paramStep false e []).1 = ([((.query, "e"), [.empty])], false) := by decide
+
+/-- regression (F-C13-3, repaired): `?q=` with `q: integer, default 7` — nothing is appended any more -/
+theorem regression_empty_present :
+    let p : Param := { name := "q", loc := .query, ty := .sc .integer, dflt := some (.sc (.int 7)), required := false, allowEmpty := true, explode := true }
+    let st : Store := [((.query, "q"), [.empty])]
+    paramStep false p st = (st, true) ∧ specStep false p st = st := by decide
+
+/-- regression (F-C13-4, repaired): a schema without `type`, `?u=9` present — the default is not appended -/
+theorem regression_untyped_present :
+    let p : Param := { name := "u", loc := .query, ty := .untyped, dflt := some (.sc (.int 7)), required := false, allowEmpty := true, explode := true }
+    let st : Store := [((.query, "u"), [.lit (.int 9)])]
+    paramStep false p st = (st, true) ∧ specStep false p st = st := by decide
+
+/-- regression (F-C13-5, repaired): header array default `[1,2]` is written as "1,2", accepted again, unchanged -/
+theorem regression_header_array_default :
+    let p : Param := { name := "X-P", loc := .header, ty := .array .integer, dflt := some (.list [.int 1, .int 2]), required := false, allowEmpty := false, explode := false }
+    paramStep false p [] = ([((.header, "X-P"), [.csv [.int 1, .int 2]])], true) ∧
+    paramStep false p (paramStep false p []).1 = ((paramStep false p []).1, true) ∧
+    specStep false p [] = (paramStep false p []).1 := by decide
+
+/-- regression (F-C13-6, repaired): validating twice with the SAME input (the cache of the first validation) -/
+theorem regression_reused_input :
+    let p : Param := { name := "q", loc := .query, ty := .sc .integer, dflt := some (.sc (.int 5)), required := false, allowEmpty := false, explode := true }
+    let r1 := paramsPhaseCached false false [] [p] []
+    r1.2.1 = [((.query, "q"), [.lit (.int 5)])] ∧ r1.1 = r1.2.1 ∧
+    (paramsPhaseCached false false r1.1 [p] r1.2.1).2 = (r1.2.1, true) := by decide
+
+/-- regression witness of the repaired #25 and non-vacuity: query array default `[1,2]`, `explode` not given (so:
+    true) — written as `q=1&q=2`, accepted again, nothing further changes -/
+example :
+    let p : Param := { name := "q", loc := .query, ty := .array .integer, dflt := some (.list [.int 1, .int 2]), required := false, allowEmpty := false, explode := true }
+    DefaultReadsAsEmpty false p [] = false ∧
+    paramStep false p [] = ([((.query, "q"), [.lit (.int 1), .lit (.int 2)])], true) ∧
+    paramStep false p (paramStep false p []).1 = ((paramStep false p []).1, true) ∧
+    specStep false p [] = (paramStep false p []).1 := by decide
+
+/-- non-vacuity of the list theorems: a defaulted query parameter, a present header, a defaulted cookie array -/
 example :
     let ps : List Param := [
       { name := "q", loc := .query, ty := .sc .integer, dflt := some (.sc (.int 7)), required := false, allowEmpty := false, explode := true },
       { name := "X-P", loc := .header, ty := .sc .string, dflt := some (.sc (.str "dd")), required := true, allowEmpty := false, explode := false },
-      { name := "ck", loc := .cookie, ty := .sc .boolean, dflt := some (.sc (.bool true)), required := false, allowEmpty := false, explode := true }]
+      { name := "ck", loc := .cookie, ty := .array .integer, dflt := some (.list [.int 1, .int 2]), required := false, allowEmpty := false, explode := false }]
     let st : Store := [((.header, "X-P"), [.lit (.str "abc")])]
-    keysDistinct ps = true ∧ (∀ p ∈ ps, Regular false p st = true) ∧
+    keysDistinct ps = true ∧ (∀ p ∈ ps, DefaultReadsAsEmpty false p st = false) ∧
     paramsPhase false false ps st =
-      ([((.header, "X-P"), [.lit (.str "abc")]), ((.query, "q"), [.lit (.int 7)]), ((.cookie, "ck"), [.lit (.bool true)])], true) := by
+      ([((.header, "X-P"), [.lit (.str "abc")]), ((.query, "q"), [.lit (.int 7)]), ((.cookie, "ck"), [.csv [.int 1, .int 2]])], true) := by
   decide
-
-/-- **The query cache is harmless within one validation.**  ValidateRequest decodes query parameters from a cache of
-the query taken when the validation began, but writes defaults into the URL.  For parameters with distinct
-(location, name) that is the same as decoding from the URL: all theorems about `paramsPhase` are theorems about the
-code's `paramsPhaseCached` with a fresh RequestValidationInput. -/
-theorem query_cache_harmless_in_one_validation (skip multi : Bool) (ps : List Param) (st : Store)
-    (hk : keysDistinct ps = true) : paramsPhaseCached skip multi st ps st = paramsPhase skip multi ps st :=
-  paramsPhaseCached_eq skip multi st ps st hk (fun _ _ => rfl)
-
-/-- F-C13-6 (new): … but not across validations that REUSE the input: the cache of the first validation does not
-    contain the default written into the URL, so `q=5` becomes `q=5&q=5` (with a fresh input nothing changes) -/
-theorem witness_stale_query_cache :
-    let p : Param := { name := "q", loc := .query, ty := .sc .integer, dflt := some (.sc (.int 5)), required := false, allowEmpty := false, explode := true }
-    let st0 : Store := []
-    let st1 := (paramsPhaseCached false false st0 [p] st0).1
-    StaleQueryCache true false p st0 = true ∧
-    st1 = [((.query, "q"), [.lit (.int 5)])] ∧
-    (paramsPhaseCached false false st0 [p] st1).1 = [((.query, "q"), [.lit (.int 5), .lit (.int 5)])] ∧
-    (paramsPhaseCached false false st1 [p] st1).1 = st1 := by decide
-
-/-- F-C13-3 (new): `?q=` with `q: integer, default 7` — the default is appended, and appended again -/
-theorem witness_empty_present :
-    let p : Param := { name := "q", loc := .query, ty := .sc .integer, dflt := some (.sc (.int 7)), required := false, allowEmpty := false, explode := true }
-    let st : Store := [((.query, "q"), [.empty])]
-    EmptyPresent false p st = true ∧
-    paramStep false p st = ([((.query, "q"), [.empty, .lit (.int 7)])], true) ∧
-    (paramStep false p (paramStep false p st).1).1 = [((.query, "q"), [.empty, .lit (.int 7), .lit (.int 7)])] ∧
-    specStep false p st = st := by decide
-
-/-- F-C13-4 (new): a schema without `type`: `?u=9` becomes `u=9&u=7`, then `u=9&u=7&u=7` -/
-theorem witness_untyped_default :
-    let p : Param := { name := "u", loc := .query, ty := .untyped, dflt := some (.sc (.int 7)), required := false, allowEmpty := false, explode := true }
-    let st : Store := [((.query, "u"), [.lit (.int 9)])]
-    UntypedDefault false p = true ∧
-    (paramStep false p st).1 = [((.query, "u"), [.lit (.int 9), .lit (.int 7)])] ∧
-    (paramStep false p (paramStep false p st).1).1 = [((.query, "u"), [.lit (.int 9), .lit (.int 7), .lit (.int 7)])] ∧
-    specStep false p st = st := by decide
-
-/-- F-C13-5 (new): header array default `[1,2]` is written as "[1 2]"; accepted now, rejected by the next validation;
-    the spec writes "1,2" -/
-theorem witness_sprint_array_default :
-    let p : Param := { name := "X-P", loc := .header, ty := .array .integer, dflt := some (.list [.int 1, .int 2]), required := false, allowEmpty := false, explode := false }
-    SprintArrayDefault false p [] = true ∧
-    paramStep false p [] = ([((.header, "X-P"), [.sprint [.int 1, .int 2]])], true) ∧
-    (paramStep false p (paramStep false p []).1).2 = false ∧
-    specStep false p [] = [((.header, "X-P"), [.csv [.int 1, .int 2]])] := by decide
-
-/-- regression witness of the repaired #25 and non-vacuity of the three partial theorems: query array default
-    `[1,2]`, `explode` not given (so: true) — written as `q=1&q=2`, accepted again, nothing further changes -/
-example :
-    let p : Param := { name := "q", loc := .query, ty := .array .integer, dflt := some (.list [.int 1, .int 2]), required := false, allowEmpty := false, explode := true }
-    EmptyPresent false p [] = false ∧ UntypedDefault false p = false ∧ SprintArrayDefault false p [] = false ∧
-    paramStep false p [] = ([((.query, "q"), [.lit (.int 1), .lit (.int 2)])], true) ∧
-    paramStep false p (paramStep false p []).1 = ((paramStep false p []).1, true) ∧
-    specStep false p [] = (paramStep false p []).1 := by decide
 
 end ParamPart
 
